@@ -250,8 +250,6 @@ package websockets
 //@   send serverMessages
 //@     assert[C11:server-message-queued-unchanged] arg0 == serverMessages && arg1 != nil && !allocated0(arg1) && arg1.Type == lt && arg1.Data == lb && sent == reads - 1
 //@     do sent = sent + 1
-//@   call (*websocket.Conn).NextReader
-//@     assert[C11:whole-messages-only] false
 // rely: serverMessages is local to NewConnection and this deferred close is its only close site, so the error callback
 // cannot close it; nor can it reassign this closure's captured variables (they are not visible to it).
 //@   call funcvalue:func(err error)
